@@ -307,7 +307,7 @@ func c15(c *an.Ctx) {
 		for fn := range cands {
 			full := an.RelPkg(fn) + "." + an.QualName(fn)
 			o.SitePos(p.Pos(fn.Pos()))
-			if _, ok := exemptRec[full]; ok {
+			if listedFunc(exemptRec, full) {
 				continue
 			}
 			if !hasVisitedGuard(fn) {
